@@ -4,6 +4,7 @@ import StoneVerif.Lemmas.FeCompileFaithful
 import StoneVerif.Lemmas.FeCompileAcyclic
 import StoneVerif.Lemmas.FeCompileOrder
 import StoneVerif.Lemmas.FeCompileFuel
+import StoneVerif.Lemmas.FeCompilePatch
 /-!
 # C02 for the compile model: the Api is the image of the declarations
 
@@ -19,7 +20,7 @@ enumerated subtypes, per namespace in order of first mention -- is exactly what 
 the order in which types were populated on demand, aliases were set, and files were given. -/
 theorem compile_eq_denote (rx : String → Bool) (fs : List File) (api : Api) (h : compile rx fs = .ok api) :
     denote rx fs = some api :=
-  L.compile_denote h
+  L.compile_denote (L.compile_core h)
 
 /-- **Closure.** Every (namespace, name) that a member type, an alias target, a route type (through List / Map /
 Nullable), a parent link or an enumerated-subtype link of the compiled Api mentions is a data type -- respectively an
@@ -27,15 +28,16 @@ alias -- that the Api holds in the namespace it names (`Api.closed`, a decidable
 every compiled case as well). -/
 theorem api_closed (rx : String → Bool) (fs : List File) (api : Api) (h : compile rx fs = .ok api) :
     api.closed = true :=
-  L.denote_closed (L.compile_denote h)
+  L.denote_closed (L.compile_denote (L.compile_core h))
 
 /-- **Members.** Namespace by namespace (order of first mention), type by type (declaration order), member by member
 (declaration order): the compiled Api lists exactly the declared types with exactly the declared members, each with
 the type its declared type expression denotes, plus only the implicit `other` -- and that only for unions declared
-open; aliases likewise with their declared targets. -/
+open; aliases likewise with their declared targets. The declared members of a type are its own followed by those of
+its patches, in the order of files and declarations (`mergeFiles`). -/
 theorem fields_faithful (rx : String → Bool) (fs : List File) (api : Api) (h : compile rx fs = .ok api) :
-    Faithful rx fs api :=
-  L.denote_faithful (L.compile_denote h)
+    Faithful rx (mergeFiles fs) api :=
+  L.denote_faithful (L.compile_denote (L.compile_core h))
 
 /-- **Acyclicity.** In a compiled Api no type is its own ancestor, and no alias is reached from its own target
 through aliases, List, Map and Nullable (`Path` = one or more steps). For parents this is the depth-first population
@@ -44,19 +46,20 @@ search of `Alias.set_attributes`, which runs against the targets set so far, and
 changes once set. (A struct or union MAY refer to itself through its members: nothing is claimed there.) -/
 theorem api_acyclic (rx : String → Bool) (fs : List File) (api : Api) (h : compile rx fs = .ok api) :
     (∀ k, ¬ Path api.parentEdge k k) ∧ (∀ k, ¬ Path api.aliasEdge k k) :=
-  L.compile_acyclic h
+  L.compile_acyclic (L.compile_core h)
 
 /-- **Order independence of the image** (partial). Two accepted inputs that hold the same declarations in every
-namespace -- distributed over other files, files given in another order, declarations in another order
-(`SameDecls`) -- give every (namespace, name) the same data type (parent, members, catch-all) and the same alias.
+namespace once the patches are merged -- distributed over other files, files given in another order, declarations in
+another order (`SameDecls` of the merged files; the members two patches add to one type follow the order of the files) -- give every (namespace, name) the same data type (parent, members, catch-all) and the same alias.
 Missing for the full statement `compile fs' ≈ compile fs`: that acceptance itself does not depend on the arrangement
 (`compile fs = ok ↔ compile fs' = ok`, which needs the decidable `Legal` of compile_error_iff: not proved; the suites
 layout / faithful test it), routes and enumerated-subtype tables per key, and the listing orders (which DO follow the
 arrangement until `Api.normalize` sorts them: Props/C02.lean). -/
 theorem compile_order_independent_partial (rx : String → Bool) (fs fs' : List File) (api api' : Api)
-    (h : compile rx fs = .ok api) (h' : compile rx fs' = .ok api') (hs : SameDecls fs fs') (k : Key) :
+    (h : compile rx fs = .ok api) (h' : compile rx fs' = .ok api') (hs : SameDecls (mergeFiles fs) (mergeFiles fs'))
+    (k : Key) :
     api.type? k = api'.type? k ∧ api.alias? k = api'.alias? k :=
-  L.compile_order_independent h h' hs k
+  L.compile_order_independent (L.compile_core h) (L.compile_core h') hs k
 
 /-- **The fuel of the depth-first population suffices.** `populate` models the on-demand population of parents
 (`_resolve_type(.., enforce_fully_defined=True)` with `_resolution_in_progress`) by recursion on explicit fuel. With
@@ -88,7 +91,7 @@ section Examples
 def href (n : String) (nullable := false) : RefHead := { ns := none, name := n, kw := [], nullable := nullable }
 
 /-- two files of one namespace, a forward parent in another namespace, an open union below a closed one, an alias
-used before it is declared -/
+used before it is declared, a patch (under another spelling of the canonical name) -/
 def sample : List File := [
   { ns := "na", decls := [
       .imp "nb",
@@ -103,7 +106,8 @@ def sample : List File := [
               fields := [{ name := "a", ty := none }] },
       .type { name := "V", kind := .union true, fields := [{ name := "b", ty := some (.leaf (href "S") []) }] },
       .route { name := "r", version := 1, arg := .leaf (href "S") [], result := .leaf (href "Void") [],
-               error := some (.leaf (href "U") []) } ] } ]
+               error := some (.leaf (href "U") []) },
+      .patch { name := "u", kind := .union false, fields := [{ name := "p", ty := some (.leaf (href "B") []) }] } ] } ]
 
 example : (compile (fun _ => true) sample).toOption.isSome = true := by decide +kernel
 
